@@ -59,7 +59,17 @@ def struct_messages(seed):
         ("struct:TPM2B_ECC_POINT(truncated)", "TPM2B_ECC_POINT", pt[:-3], None, None),
         ("struct:TPM2B_NV_PUBLIC(bad value)", "TPM2B_NV_PUBLIC", bytes(bad), None, None),
         ("struct:TPM2B_SENSITIVE_CREATE", "TPM2B_SENSITIVE_CREATE", cr, None, None),
+        # one value, legal for one member of an enumeration family and illegal for a sibling type
+        ("struct:TPMT_HA(SHA256)", "TPMT_HA", bytes.fromhex("000b") + bytes(32), None, None),
+        ("struct:TPMT_SYM_DEF(algorithm=SHA256: not symmetric)", "TPMT_SYM_DEF", bytes.fromhex("000b0080"), None, None),
+        ("struct:TPMS_ECC_PARMS curve field", "TPMI_ECC_CURVE", bytes.fromhex("0003"), None, None),
+        # an illegal selector in front of a union with a fallback member
+        ("struct:TPMT_RSA_SCHEME(scheme=0x7fff)", "TPMT_RSA_SCHEME", bytes.fromhex("7fff000b"), None, None),
+        ("struct:TPMT_SIGNATURE(sigAlg=0x0001)", "TPMT_SIGNATURE", bytes.fromhex("0001000b"), None, None),
     ]
+
+
+NSTRUCT = 10
 
 
 def all_messages(seed):
@@ -98,7 +108,7 @@ def norm(evs):
 
 def units(tier, seed):
     n = 6 if tier == "quick" else 8
-    idx = list(range(n)) + list(range(NFRAMES, NFRAMES + 5))
+    idx = list(range(n)) + list(range(NFRAMES, NFRAMES + 5))  # schedules: the first five structure messages
     us = [{"kind": "sweep", "label": "sweep:all-encrypted-kinds", "seed": seed, "tier": tier}]
     for a, b in itertools.product(idx, repeat=2):
         if (a >= NFRAMES) != (b >= NFRAMES) and tier == "quick":
@@ -110,6 +120,10 @@ def units(tier, seed):
     else:
         for t in ((0, 1, 0), (0, 1, 3), (3, 4, 5), (0, 2, 1), (1, 1, 1)):
             us.append({"kind": "sched", "label": f"sched:{t}/p2", "msgs": list(t), "p": 2, "seed": seed})
+    # first-use order: every ordered pair of messages as the history [A, B, A] (strict and warn) in a FRESH interpreter
+    allm = NFRAMES + NSTRUCT
+    for a in range(allm):
+        us.append({"kind": "fresh", "label": f"fresh:{a}", "a": a, "n": allm, "seed": seed, "tier": tier})
     depth = 3 if tier == "quick" else 4
     ops = op_names(n)
     for first in ops:
@@ -121,6 +135,7 @@ def op_names(n):
     ops = [f"decode:{i}" for i in range(n)]
     ops += [f"e2o:{i}" for i in (0, 3, 5)] + [f"o2e:{i}" for i in (0, 3)] + [f"canon:{i}" for i in (1,)] + [f"warn:{i}" for i in (1, 4)]
     ops += [f"decode:{i}" for i in range(NFRAMES, NFRAMES + 5)] + [f"abandon:{i}" for i in (1, NFRAMES + 1)]
+    ops += [f"warn:{i}" for i in (NFRAMES + 6, NFRAMES + 8, NFRAMES + 9)]
     return ops
 
 
@@ -144,8 +159,15 @@ def do_op(op, msgs):
         return (norm(evs),), (evs,)
     if kind == "warn":
         g = maker(msg, strict=False)()
-        evs = list(g)
-        return (norm(evs),), (evs,)
+        evs, err = [], None
+        try:
+            for e in g:
+                evs.append(e)
+        except Exception as e:  # noqa: BLE001
+            err = impl.norm_err(e)
+        ns_ = loader.load()
+        # warnings wrap exception objects, which never compare equal: == is applied to the field events only
+        return (norm(evs), err), ([e for e in evs if isinstance(e, ns_.MarshalEvent)],)
     evs, obj, err = solo(msg)
     if kind == "e2o":
         if root == "CommandResponseStream":
@@ -170,6 +192,84 @@ def global_baseline(op, msgs):
         loader.cache_clear()
         _global[op] = do_op(op, msgs)[0]
     return _global[op]
+
+
+def fresh_main(a, seed):
+    """runs in a fresh interpreter (one per first message A): for every B the history would need its own process to be
+    exact; instead this process decodes A first (so A is the first use of everything it touches), then for every B:
+    B, A again - and a second kind of process (a == -1) decodes every message once in reverse order.  Prints the
+    normalised results as json."""
+    import json
+    import sys
+
+    loader.load()
+    msgs = all_messages(seed)
+
+    def both(m):
+        out = []
+        for strict in (True, False):
+            g = maker(m, strict=strict)()
+            evs, err = [], None
+            try:
+                for e in g:
+                    evs.append(e)
+            except Exception as e:  # noqa: BLE001
+                err = impl.norm_err(e)
+            out.append([norm(evs), err])
+        return out
+
+    res = {}
+    order = [a] + [b for b in range(len(msgs)) if b != a] if a >= 0 else list(range(len(msgs) - 1, -1, -1))
+    for i in order:
+        res.setdefault(str(i), []).append(both(msgs[i]))
+        if a >= 0 and i != a:
+            res[str(a)].append(both(msgs[a]))
+    json.dump(res, sys.stdout, default=str)
+
+
+def fresh_unit(acc, unit):
+    import json
+    import os
+    import subprocess
+    import sys
+
+    root = os.path.dirname(os.path.dirname(os.path.dirname(os.path.abspath(__file__))))
+    outs = {}
+    for a in (unit["a"], -1) if unit["a"] == 0 else (unit["a"],):
+        r = subprocess.run([sys.executable, "-c", f"from vlib.props import c12; c12.fresh_main({a}, {unit['seed']})"], cwd=root, capture_output=True, text=True, timeout=900)
+        if r.returncode != 0:
+            acc.violation({"clause": "harness-error", "what": "fresh-subprocess"}, {"harness": "fresh", "a": a}, r.stderr[-400:])
+            return acc
+        outs[a] = json.loads(r.stdout)
+    labels = [m[0] for m in all_messages(unit["seed"])]
+    # the reference for every message: what THIS (pool) process gets; all processes and all positions must agree
+    msgs = all_messages(unit["seed"])
+    for a, res in outs.items():
+        for k, runs in res.items():
+            i = int(k)
+            loader.cache_clear()
+            want = []
+            for strict in (True, False):
+                g = maker(msgs[i], strict=strict)()
+                evs, err = [], None
+                try:
+                    for e in g:
+                        evs.append(e)
+                except Exception as e:  # noqa: BLE001
+                    err = impl.norm_err(e)
+                want.append([norm(evs), err])
+            want = json.loads(json.dumps(want, default=str))
+            for pos, got in enumerate(runs):
+                acc.count("evaluations")
+                acc.count("transitions")
+                if got != want:
+                    mode = "strict" if got[0] != want[0] else "warn"
+                    acc.violation({"clause": "fresh:depends-on-first-use-order", "mode": mode}, {"harness": "fresh", "a": a, "message": labels[i], "occurrence": pos}, f"{labels[i]} decoded in a fresh interpreter whose first message was {labels[a] if a >= 0 else 'the last of the alphabet (reverse order)'} (occurrence {pos}) differs in {mode} mode from the same decode in another process: {str(got[0 if mode == 'strict' else 1][1])[:160]} vs {str(want[0 if mode == 'strict' else 1][1])[:160]}", size=pos)
+        acc.count("states", len(res))
+        acc.count("histories")
+        acc.shape(("fresh", a))
+    acc.sample({"unit": unit["label"], "first_message": labels[unit["a"]], "history": "A, then for every other message B: B, A (strict and warn), in a fresh interpreter"}, cap=1)
+    return acc
 
 
 def sweep(acc, unit):
@@ -211,6 +311,8 @@ def run_unit(unit):
     msgs = all_messages(unit["seed"])
     if unit["kind"] == "sweep":
         return sweep(acc, unit)
+    if unit["kind"] == "fresh":
+        return fresh_unit(acc, unit)
     if unit["kind"] == "sched":
         sel = [msgs[i] for i in unit["msgs"]]
         labels = [m[0] for m in sel]
@@ -327,7 +429,9 @@ def finish(acc, tier, seed):
 def replay(case):
     acc = Acc()
     loader.load()
-    if case.get("harness") == "sweep":
+    if case.get("harness") == "fresh":
+        u = {"kind": "fresh", "label": "replay", "a": max(0, case.get("a", 0)), "n": 0, "seed": 0, "tier": "quick"}
+    elif case.get("harness") == "sweep":
         u = {"kind": "sweep", "label": "replay", "seed": 0, "tier": "quick"}
     elif case.get("harness") == "sched":
         u = {"kind": "sched", "label": "replay", "msgs": case["messages"], "p": case.get("preemptions", 2), "seed": 0}
